@@ -173,6 +173,35 @@ theorem denotes_cases :
   ⟨fun _ _ _ => denotes_mkLex_false, fun _ _ _ => denotes_mkLex_true, fun _ _ => denotes_mkValue,
     denotes_mkFromLit_some, fun _ => denotes_mkFromLit_none⟩
 
+/-- `lit.eq(v)` for a plain Python object `v` of a kind `eq` documents for the literal's datatype
+    (`eqPyDomain`: str ↔ plain / xsd:string, bool ↔ xsd:boolean, int / Decimal ↔ the numeric types,
+    date / time / datetime ↔ xsd:date / time / dateTime, timedelta / Duration ↔ all three duration datatypes)
+    is Python equality of the mapped value with `v` — in particular `lit.eq(lit.toPython())` is True; outside
+    that domain it answers `NotImplemented` -/
+def Statement_eq_python_value : Prop :=
+  (∀ l v x, Built l → eqPyDomain l.dt v = true → l.value = some x → l.eqPy v = some (pyEq x v)) ∧
+  (∀ l x, Built l → l.value = some x → eqPyDomain l.dt x = true → l.eqPy x = some true) ∧
+  (∀ (l : Lit) v, eqPyDomain l.dt v = false → l.eqPy v = none)
+
+theorem eq_python_value : Statement_eq_python_value := by
+  have key : ∀ l v x, Built l → eqPyDomain l.dt v = true → l.value = some x → l.eqPy v = some (pyEq x v) := by
+    intro l v x hb hd hv
+    by_cases hs : v.isStr = true
+    · cases v <;> simp [PyVal.isStr] at hs
+      obtain ⟨y, hy, he⟩ := eqPy_str hb hd
+      rw [hv] at hy; cases hy; exact he
+    · exact eqPy_value hd hv (by simpa using hs)
+  refine ⟨key, fun l x hb hv hd => ?_, fun l v h => eqPy_outside h⟩
+  rw [key l x x hb hd hv, pyEq_refl]
+
+/-- every duration datatype, every date/time datatype and every numeric datatype is in the domain of its value kind
+    (the tables `eq` tests against must not lose a member) -/
+theorem eq_python_domain_tables :
+    (∀ d ∈ Dt.all, d.conv = .duration → eqPyDomain (some d) (.timedelta 0) = true ∧ eqPyDomain (some d) (.duration 0 0 0) = true) ∧
+    (∀ d ∈ Dt.all, (d.conv = .date ∨ d.conv = .time ∨ d.conv = .dateTime) → eqPyDomain (some d) (.date 1 1 1) = true) ∧
+    (∀ d ∈ Dt.all, (d.conv = .int ∨ d.conv = .decimal) → eqPyDomain (some d) (.int 0) = true ∧ eqPyDomain (some d) (.dec false 0 0) = true) := by
+  refine ⟨?_, ?_, ?_⟩ <;> decide
+
 /-! ## 4b. literals made from literals (first branch of `__new__`) -/
 
 /-- `Literal(old, datatype=d)` is `Literal(str(old), datatype=d, normalize=False)` with `ill_typed = None`:
